@@ -813,6 +813,26 @@ def gen_fd_error(seed, mode="loop"):
     return sc
 
 
+def gen_task_queued_at_quit(seed, mode="loop"):
+    """known finding reproducer: more tasks than the task pool has threads are registered in the step that quits the loop; the
+    ones still queued when the loop stops are dropped by the pool but their sources stay registered: they never fire, not
+    even in a second loop run that lasts long enough"""
+    r = random.Random(seed * 103 + 73)
+    sc = Sc(mode, "tasks still queued when the loop stops seed=%d" % seed)
+    driven_skeleton(sc)
+    T = 1
+    sc.mod(T, "tasker", 0, 0)
+    sc.cb(T, "evt", "*", [])
+    sc.main += [("reg", T), ("start", T)]
+    n = 20 + r.randrange(0, 6)
+    regs = [("task_reg", T, 100 + k, 0, 0, 3000, k % 100) for k in range(n)]
+    sc.meta["tasks_must_fire"] = {100 + k: T for k in range(n)}
+    run2 = [[("sleep", 3000)] if i % 2 else [] for i in range(12)]
+    driven_multi(sc, [[[]], run2], [[], []], rng=r, last_ops=[regs, []])
+    finalize_main(sc)
+    return sc
+
+
 def gen_tick_in_flush(seed, mode="loop"):
     """C20: m_ctx_set_tick() called by a handler that the final flush of a loop run invokes (loop-stopped notification) while a
     tick is active"""
@@ -1450,6 +1470,14 @@ def gen_batching(seed, mode="loop"):
             sc.main.append(("btimeout", T, t0_))         # applying the same timeout again must keep it in force
     elif r.random() < 0.7:
         sc.main.append(("bsize", T, r.choice([0, 1, 2, 3, 7, 2, 3])))
+    if r.random() < 0.2:
+        # set-then-clear probe: with neither a size nor a timeout in force any more, a normal event is delivered at once
+        steps.append([("bsize", T, 0), ("btimeout", T, r.choice([3000000, 5000000]))])
+        steps.append([("btimeout", T, 0)])
+        steps.append([("publish", S2, tn, sc.pay(), 0)])
+        settle(1)
+        if use_timeout:
+            steps.append([("btimeout", T, t0_)])
     for phase in range(r.randrange(3, 10) if not use_timeout else r.randrange(2, 5)):
         x = r.random()
         if x < 0.2 and not use_timeout:
